@@ -584,6 +584,19 @@ mut('C16-dhtv-centroid-into-like-buffer', 'C16', PA, "                time_centr
     "                time_centroid = np.mean(features[:, start:end, :], axis=1, out=np.empty_like(features[:, 0, :]))", expect='R-DTYPE', props=['C14', 'C16'])
 neu('N15-dhtv-centroid-into-float-buffer', ALLP, [(PA, "                time_centroid = np.mean(features[:, start:end, :], axis=1)",
     "                time_centroid = np.mean(features[:, start:end, :], axis=1, out=np.empty(features[:, 0, :].shape))", False)])
+# ---- sixth pass (third reading of the mutation survey): working shape split, destination axes, row loops, buffers that are never filled, loop extents, power axis
+MM = 'pb_bss/extraction/mask_module.py'
+mut('C18-lorenz-working-shape-counts-from-the-front', 'C18', MM, "        np.prod(shape[:-len(tmp_axis)], dtype=np.int64),\n        np.prod(shape[-len(tmp_axis):]),", "        np.prod(shape[:len(tmp_axis)], dtype=np.int64),\n        np.prod(shape[len(tmp_axis):]),", expect='working-shape-split', props=['C18'])
+mut('C18-lorenz-destination-axes-not-trailing', 'C18', MM, "    # Only works, when last two dimensions are frequency and time.\n    tmp_axis = tuple([-i - 1 for i in range(len(axis))])", "    # Only works, when last two dimensions are frequency and time.\n    tmp_axis = tuple([i - 1 for i in range(len(axis))])", expect='destination', props=['C18'])
+mut('C18-lorenz-row-loop-over-samples', 'C18', MM, "    for i in range(power.shape[0]):\n        mask[i, :] = get_mask(power[i])", "    for i in range(power.shape[-1]):\n        mask[i, :] = get_mask(power[i])", expect='row-loop', props=['C18'])
+mut('C18-lorenz-mask-never-filled', 'C18', MM, "    for i in range(power.shape[0]):\n        mask[i, :] = get_mask(power[i])", "    for i in range(power.shape[0]):\n        get_mask(power[i])", expect='filled', props=['C18'])
+neu('N17-lorenz-rows-by-zip-and-range-destination', ALLP, [
+    (MM, "    for i in range(power.shape[0]):\n        mask[i, :] = get_mask(power[i])", "    for mask_row, power_row in zip(mask, power):\n        mask_row[...] = get_mask(power_row)", False),
+    (MM, "    # Only works, when last two dimensions are frequency and time.\n    tmp_axis = tuple([-i - 1 for i in range(len(axis))])", "    # Only works, when last two dimensions are frequency and time.\n    tmp_axis = tuple(range(-1, -len(axis) - 1, -1))", False)])
+mut('C14-greedy-pick-never-recorded', 'C14', PA, "                reverse_permutation[(i, *f)] = j\n", "                pass\n", expect='filled', props=['C14'])
+mut('C13-stable-solve-loop-over-last-extent', 'C13', 'pb_bss/math/solve.py', "        for i in range(working_shape_A[0]):", "        for i in range(working_shape_A[-1]):", expect='extent', props=['C13', 'C11'])
+mut('C19-noise-power-over-sensors', 'C19', SX, "    N = get_variance_for_zero_mean_signal(noise, axis=-1)  # Noise power", "    N = get_variance_for_zero_mean_signal(noise, axis=-2)  # Noise power", expect='power-axis', props=['C19'])
+mut('C15-euclidean-summed-over-classes', 'C15', PA, "            np.abs(mask[:, None, ...] - reference_mask[None, ...]) ** 2,\n            axis=-1\n        )).T", "            np.abs(mask[:, None, ...] - reference_mask[None, ...]) ** 2,\n            axis=-2\n        )).T", expect='layout', props=['C15'])
 # ---- whole refactorings written by independent sub-agents (14-20 behaviour-preserving edits each, verified bit-identical on
 #      600-900 inputs per patch): every check must stay silent on each of them
 for r, what in (('R1', 'mixture_model_utils / cacgmm / cACG'), ('R2', 'cwmm / cbmm / Watson / Bingham / distribution.utils'), ('R3', 'gmm / gaussian / vMF / gcacgmm / vmfcacgmm'),
